@@ -185,3 +185,15 @@ pub fn allocated_set(db: &redb::Database) -> Result<Vec<(u32, u32)>, String> {
     }
     Ok(v)
 }
+
+/// every order-0 page position of every region (allocated or free)
+pub fn total_pages(db: &redb::Database) -> Result<Vec<(u32, u32)>, String> {
+    let acc = db.verif_accounting().map_err(|e| format!("accounting walk failed: {e}"))?;
+    let mut v = vec![];
+    for (r, reg) in acc.regions.iter().enumerate() {
+        for p in 0..reg.len {
+            v.push((r as u32, p));
+        }
+    }
+    Ok(v)
+}
